@@ -250,6 +250,9 @@ func c02Named() []c02Case {
 		"BEGIN { $(1000001) = 1 }\n", "BEGIN { $(1e7) = \"x\" }\n", "BEGIN { NF = 1000001 }\n", "BEGIN { NF = -1 }\n", "{ $(2^31) = 1 }\n", "BEGIN { $(1e6 + 1)++ }\n", "BEGIN { $(1e6 + 1) += 2 }\n", "BEGIN { ARGC = 1e7 }\n",
 		"BEGIN { x = \"a\" ~ \"(\" }\n", "BEGIN { n = match(\"a\", \"[\") }\n", "BEGIN { n = split(\"a\", arr, \"a{2000}\") }\n", "BEGIN { n = sub(\"(\", \"x\") }\n", "BEGIN { n = gsub(\"*a\", \"x\", y) }\n", "BEGIN { FS = \"((\"; $0 = \"a\" }\n",
 		"BEGIN { RS = \"a(\" }\n", "{ x = $0 ~ $1 }\n", "BEGIN { printf \"%d\" }\n", "BEGIN { printf \"%z\", 1 }\n", "BEGIN { x = sprintf(\"%d %d\", 1) }\n", "BEGIN { x = 1 / 0 }\n", "BEGIN { x = 1 % 0 }\n",
+		// a format that was used correctly before (the translated format is cached) and then with too few arguments
+		"BEGIN { f = \"%s-%s\\n\"; printf f, \"a\", \"b\"; printf f, \"a\" }\n", "BEGIN { x = sprintf(\"%d %d\", 1, 2); y = sprintf(\"%d %d\", 1) }\n",
+		"{ printf \"%s %s %s\\n\", $1, $2, $3 }\nEND { printf \"%s %s %s\\n\", $1 }\n", "BEGIN { for (i = 3; i >= 0; i--) x = x sprintf(\"%c%*d\", 65, i, i) ; y = sprintf(\"%c%*d\", 65, 1) }\n",
 	} {
 		for _, chars := range []bool{false, true} {
 			out = append(out, c02Case{Gen: "named-error", Src: src, Stdin: []byte("[ (\n"), Chars: chars, WantError: true})
